@@ -16,7 +16,7 @@ import subprocess
 import sys
 import time
 
-REPO = "/repo"
+REPO = os.environ.get("SEED_REPO", "/repo")   # a scratch worktree may be used for preliminary triage
 VERIF = "/verif"
 
 
@@ -60,10 +60,11 @@ def main():
         res = meta.setdefault("checks", {})
         for c in checks:
             t0 = time.time()
-            cmd = "cd %s && ./check %s --tier %s" % (VERIF, c, tier) + (" --only '%s'" % only if only else "")
+            cmd = "cd %s && VERIF_REPO=%s %s ./check %s --tier %s" % (
+                VERIF, REPO, "" if REPO == "/repo" else "VERIF_EVIDENCE=/tmp/seed_evidence", c, tier) + (" --only '%s'" % only if only else "")
             r = sh(cmd)
             lines = [l for l in r.stdout.splitlines() if l.startswith("VIOLATION")]
-            res["%s/%s%s" % (c, tier, ("/" + only) if only else "")] = dict(
+            res["%s/%s%s%s" % (c, tier, ("/" + only) if only else "", "" if REPO == "/repo" else "@scratch")] = dict(
                 exit=r.returncode, violation_lines=len(lines), first=(lines[0][:300] if lines else None),
                 wall_s=round(time.time() - t0, 1), tail=r.stdout.strip().splitlines()[-1][:300] if r.stdout.strip() else "")
             print("  check %s: exit %s, %d VIOLATION lines, %.0fs  %s" % (c, r.returncode, len(lines), time.time() - t0,
